@@ -1,0 +1,15 @@
+//go:build verif
+
+package radius
+
+// VerifAcctHook, when set, is called at every crash-point marker of the accounting manager
+// with the manager instance, the marker number and a detail string (session or record id).
+// A verification harness uses it to decide the RADIUS server's answer to the next request and
+// to abandon the instance at a chosen marker ("crash") by calling runtime.Goexit.
+var VerifAcctHook func(am *AccountingManager, point int, detail string)
+
+func (am *AccountingManager) verifCrashPoint(point int, detail string) {
+	if h := VerifAcctHook; h != nil {
+		h(am, point, detail)
+	}
+}
